@@ -370,22 +370,22 @@ def lit_cases(ctx, rnd):
     for n in list(range(0, 21)) + [99, 100, 255, 256, 2 ** 15 - 1, 2 ** 15, 2 ** 30, 2 ** 31 - 1, 2 ** 31, 2 ** 32, 2 ** 53, 2 ** 53 + 1,
                                    2 ** 62, 2 ** 63 - 1, 2 ** 63, 2 ** 63 + 1, 2 ** 64 - 1, 2 ** 64, 2 ** 64 + 1, 10 ** 18, 10 ** 19, 10 ** 20,
                                    2 ** 100, 2 ** 127, 2 ** 128, 10 ** 40, 2 ** 200 - 1, 2 ** 256]:
-        num("decimal", "%d" % n)
-        num("hex", "0x%x" % n)
-        num("hex", "0X%X" % n)
-        num("octal", "0o%o" % n)
-        num("octal", "0O%o" % n)
-        num("binary", "0b" + bin(n)[2:])
-        num("binary", "0B" + bin(n)[2:])
+        num("int-decimal", "%d" % n)
+        num("int-hex", "0x%x" % n)
+        num("int-hex", "0X%X" % n)
+        num("int-octal", "0o%o" % n)
+        num("int-octal", "0O%o" % n)
+        num("int-binary", "0b" + bin(n)[2:])
+        num("int-binary", "0B" + bin(n)[2:])
     for _ in range(60 if quick else 1500):
         bits = rnd.choice([10, 31, 32, 62, 63, 64, 65, 100, 200, 400])
         n = rnd.getrandbits(bits)
-        num("decimal", "%d" % n)
-        num("hex", rnd.choice(["0x%x", "0X%x", "0x%X"]) % n)
-        num("octal", "0o%o" % n)
-        num("binary", "0b" + bin(n)[2:])
-        num("hex", "0x" + "0" * rnd.randint(1, 3) + "%x" % n)      # leading zero digits
-        num("octal", "0o" + "0" * rnd.randint(1, 3) + "%o" % n)
+        num("int-decimal", "%d" % n)
+        num("int-hex", rnd.choice(["0x%x", "0X%x", "0x%X"]) % n)
+        num("int-octal", "0o%o" % n)
+        num("int-binary", "0b" + bin(n)[2:])
+        num("int-hex", "0x" + "0" * rnd.randint(1, 3) + "%x" % n)      # leading zero digits
+        num("int-octal", "0o" + "0" * rnd.randint(1, 3) + "%o" % n)
     for s in ("00", "000", "0000000", "01", "007", "0755", "08", "09", "0123456789", "00x1", "0x", "0X", "0o", "0O", "0b", "0B", "0xg", "0x1g",
               "0o8", "0o18", "0b2", "0b12", "0b102", "1L", "1l", "0L", "1j", "1_000", "1__0", "0_0", "0x_1", "1a", "0xABCDEFabcdef", "0o1234567",
               "0b0", "0b1", "0o0", "0x0", "0x00", "0o00", "0b00", "1 2", "+1", "-1", "1+", "1x", "0xx1", "0oo1", "0b1b", "0x1.8",
@@ -477,9 +477,9 @@ def plan(ctx):
     if ctx.quick:
         return {
             "expr": [("e2full", 2, "full", "id", 0, 4), ("e3small", 3, "small", "id", 0, 3), ("e1lits", 1, "mid", "all", 0, 4),
-                     ("ernd", 10, "full", "all", 120, 4)],
-            "file": [("f2full", 2, "full", "id", 0, 4), ("f3mid", 3, "mid", "id", 0, 4), ("frnd", 7, "full", "id", 60, 4)],
-            "near": {"expr": (60, 22), "file": (35, 30)},
+                     ("ernd", 10, "full", "all", 100, 4)],
+            "file": [("f2full", 2, "full", "id", 0, 4), ("f3mid", 3, "mid", "id", 0, 4), ("frnd", 7, "full", "id", 50, 4)],
+            "near": {"expr": (50, 22), "file": (28, 30)},
         }
     return {
         "expr": [("e2full", 2, "full", "id", 0, 6), ("e3mid", 3, "mid", "id", 0, 3), ("e1lits", 1, "full", "all", 0, 4),
